@@ -12,7 +12,7 @@ EXPLANATION = (
     "rounding mode) the solver decides that the result equals the exact integer part / fractional part / remainder (reference "
     "written on magnitudes with bvurem and the sign rule of Python's %), correctly rounded to the requested precision when one is "
     "given, for ALL mantissa bits and signs.  API routes: mp.floor/ceil/nint (closures built by _wrap_libmp_function, with and "
-    "without prec=/rounding= keywords), the % operator.  Counterexamples are replayed natively with math.floor/round on Fractions."
+    "without prec=/rounding= keywords) on real and on complex arguments (componentwise, mpc_floor/ceil/nint/frac), the % operator and fmod.  Counterexamples are replayed natively with math.floor/round on Fractions."
 )
 TRUSTED = _c02.TRUSTED
 ASSUMPTIONS = _c02.ASSUMPTIONS + ["binary exponent of the argument is concrete per obligation (grid below); mod: operand signs concrete per obligation"]
@@ -66,4 +66,19 @@ def obligations(tier, seed=0):
     add('mod', sbc=0, tbc=3, off=0, prec=4, rnd='n', ssign=0, tsign=1, entry='op', E=40)
     add('mod', sbc=5, tbc=4, off=2, prec=3, rnd='n', ssign=0, tsign=1, entry='op')
     add('mod', sbc=9, tbc=3, off=-14, prec=4, rnd='n', ssign=1, tsign=1, entry='op')
+    # fmod(x, y) == x % y on converted arguments
+    for ss in (0, 1):
+        for ts in (0, 1):
+            add('mod', sbc=5, tbc=4, off=2, prec=3, rnd='n', ssign=ss, tsign=ts, entry='fmod')
+            add('mod', sbc=4, tbc=6, off=-3, prec=5, rnd='n', ssign=ss, tsign=ts, entry='fmod')
+    add('mod', sbc=0, tbc=3, off=0, prec=4, rnd='n', ssign=0, tsign=1, entry='fmod', E=40)
+    # complex arguments: floor / ceil / nint / frac componentwise
+    for kind in ('floor', 'ceil', 'nint', 'frac'):
+        add('cround', kind=kind, bcs=[5, 4], exps=[-2, -3], prec=3)
+        add('cround', kind=kind, bcs=[7, 4], exps=[-3, 2], prec=3)
+        add('cround', kind=kind, bcs=[3, 9], exps=[-5, -1], prec=4)            # |re| < 1, long imaginary part
+        for rnd in ('f', 'c', 'n'):
+            add('cround', kind=kind, bcs=[7, 6], exps=[-3, -2], prec=3, rnd=rnd, entry='libmp')
+        if kind != 'frac':
+            add('cround', kind=kind, bcs=[6, 5], exps=[-2, -1], prec=2, rnd='u', entry='kw')
     return obs
